@@ -36,7 +36,7 @@ ASSUMPTIONS = [
     "path components are matched case-sensitively",
 ]
 BUDGET = {"quick": (200, 4), "thorough": (64000, 16)}
-REQUIRED = ["glob", "dir_pattern", "basename", "relpath_pattern", "ii_file", "nested", "child_after_parent", "x_file_and_dir", "multi_generation", "duplicate_pattern", "verify_dh", "sf_generation", "real_missing_next_to_excluded", "blank_in_pattern_file_line"]
+REQUIRED = ["glob", "dir_pattern", "basename", "relpath_pattern", "ii_file", "nested", "child_after_parent", "x_file_and_dir", "multi_generation", "duplicate_pattern", "verify_dh", "sf_generation", "real_missing_next_to_excluded", "blank_in_pattern_file_line", "cli_pattern_on_verify_dh"]
 
 DEFAULTS = [".DS_Store", "ascmhl", "ascmhl/"]
 _first = "abcdefghijklmnopqrstuvwxyzABCDEFGHIJKLMNOPQRSTUVWXYZ0123456789_."
@@ -332,6 +332,25 @@ def run_case(scn, ctx):
             else:
                 res = getattr(w, cmd)("R")
             require(res.exc is None and res.exit_code == 0, "x-edits-" + cmd, "only excluded entries were edited/added/deleted but %s\n%s" % (res.brief(), res.output[-400:]), res)
+        # patterns given on the command line of verify -dh: the printed directory hashes are those of the tree without the
+        # matching entries - compared with the twin world from which the same entries are really removed
+        from .c07 import printed_table
+
+        cand = [f for f in w.media_files("R") if not matches(f[2:], eff) and f in tw.files and set(f.split("/")[-1]) <= set("abcdefghijklmnopqrstuvwxyzABCDEFGHIJKLMNOPQRSTUVWXYZ0123456789._") and f.split("/")[-1][0] not in ".-"]
+        if cand and not scn["child"]:
+            cli_pat = cand[(scn["edits"] // 5) % len(cand)].split("/")[-1]
+            r1 = w.verify("R", flags=["-dh", "-co", "-i", cli_pat])
+            for f in [f for f in list(tw.files) if f.startswith("R/") and matches(f[2:], [cli_pat])]:
+                tw.rm(f)
+            for d in sorted([d for d in list(tw.dirs) if d.startswith("R/") and matches(d[2:], [cli_pat])], key=len, reverse=True):
+                if d in tw.dirs:
+                    tw.rmtree(d)
+            r2 = tw.verify("R", flags=["-dh", "-co"])
+            require(r1.exc is None and r2.exc is None, "cli-pattern-dirhash", "verify -dh -co aborted: %s / %s" % (r1.brief(), r2.brief()), r1)
+            t1, t2 = printed_table(r1.stdout), printed_table(r2.stdout)
+            require(t1 == t2 and t1, "cli-pattern-dirhash", "verify -dh -co -i %r prints other directory hashes than the tree without the matching entries: %r vs %r" % (cli_pat, {k: v.get("") for k, v in t1.items()}, {k: v.get("") for k, v in t2.items()}), r1)
+            feats.add("cli_pattern_on_verify_dh")
+
         # a recorded, non-excluded file really disappears: it - and only it - is reported missing, whatever excluded
         # entries were recorded by earlier generations (before their pattern became effective) or deleted above
         import re as _re
@@ -344,7 +363,7 @@ def run_case(scn, ctx):
             for cmd in ("verify", "diff"):
                 res = getattr(w, cmd)("R")
                 require(res.exc is None and res.exit_code == 10, "missing-" + cmd, "recorded file %r removed: %s" % (victim[2:], res.brief()), res)
-                lines = res.output.splitlines()
+                lines = res.output.split("\n")
                 block = None
                 for i, l in enumerate(lines):
                     m = _re.match(r"^ERROR: (\d+) missing file\(s\):$", l)
